@@ -49,6 +49,8 @@ func runC17(c *Ctx) {
 	c17GenerateTable(c)
 	batchKeyRule(c, "BATCH-KEY")
 	c17ProtoFileTotal(c)
+	c17OutputCacheKey(c)
+	ruleClosureFollowsAll(c, "CLOSURE-FOLLOWS-ALL")
 	// ImagesToCodeGeneratorRequests: fill loop before request loop
 	if fr := p.Func("private/bufpkg/bufimage", "ImagesToCodeGeneratorRequests"); fr != nil {
 		g := p.CFGOf(fr.Decl.Body, info)
